@@ -16,24 +16,9 @@ VF_DECLARE_INPUT(struct vf_in, IN)
 #include "vf_input.inc"
 
 #define VF_NO_REVOKE
-#define VF_JDEV IN.j
+#include "jgeom.h"
 #include "jenv.h"
 
-#define REF_J IN.j
-/* discrete geometry is compile-time where a config gives it (rule 2) */
-#ifdef FIRST
-#define VF_FIRST ((unsigned) FIRST)
-#else
-#define VF_FIRST IN.s_first
-#endif
-#ifdef START
-#define VF_START ((unsigned) START)
-#else
-#define VF_START IN.s_start
-#endif
-#define REF_FIRST VF_FIRST
-#define REF_LAST ((unsigned) NJ)
-#define REF_START VF_START
 #if FEAT_CSUM
 #define REF_CSUM_HOOKS
 #define REF_CSUM(k) IN.csum[k]
@@ -54,9 +39,7 @@ int main(void)
 	int rc, i;
 
 	VF_INPUT(IN);
-	/* ASSUME: journal geometry is valid: 1 <= s_first < s_maxlen, s_first <= s_start < s_maxlen (e2fsck_journal_load does not check this; invalid geometry is outside) */
-	ASSUME(VF_FIRST >= 1 && VF_FIRST < NJ - 1);
-	ASSUME(VF_START >= VF_FIRST && VF_START < NJ);
+	VF_ASSUME_GEOMETRY();
 #if FEAT_CSUM
 	for (i = 0; i < NJ; i++)
 		vf_blk_csum[i] = IN.csum[i];
